@@ -1,6 +1,7 @@
 package props
 
 import (
+	"encoding/base64"
 	"fmt"
 	"math/big"
 	"sort"
@@ -95,6 +96,14 @@ func ratOf(base string, s string) *big.Rat {
 func c05Inside(c c05Case, v string) (bool, error) {
 	if c.Base == "string" {
 		return dm.StringOK(c.Levels, v)
+	}
+	if c.Base == "binary" {
+		// the length of a binary is counted in octets
+		raw, err := base64.StdEncoding.DecodeString(v)
+		if err != nil {
+			return false, err
+		}
+		return dm.InRange("string", 0, c.Levels, new(big.Rat).SetInt64(int64(len(raw))), true)
 	}
 	return dm.InRange(c.Base, c.FD, c.Levels, ratOf(c.Base, v), false)
 }
@@ -460,10 +469,27 @@ func c05Gen(t *rapid.T) c05Case {
 func c05GenBase(t *rapid.T) c05Case {
 	c := c05Case{Store: rapid.SampledFrom([]string{"rs", "rs", "reflect-map"}).Draw(t, "store"),
 		Path: rapid.SampledFrom([]string{"set", "setvalue", "upsert-json", "insert-json", "update-json", "upsert-xml", "upsert-rs"}).Draw(t, "path")}
-	c.Base = rapid.SampledFrom([]string{"int8", "int16", "int32", "int64", "uint8", "uint16", "uint32", "uint64", "decimal64", "string", "string"}).Draw(t, "base")
+	c.Base = rapid.SampledFrom([]string{"int8", "int16", "int32", "int64", "uint8", "uint16", "uint32", "uint64", "decimal64", "string", "string", "binary"}).Draw(t, "base")
 	nLevels := rapid.IntRange(1, 3).Draw(t, "levels")
 	c.LeafList = rapid.IntRange(0, 3).Draw(t, "leaflist") == 0
 	var cands []string
+	if c.Base == "binary" {
+		lens, _ := genRangeLevels(t, big.NewInt(0), big.NewInt(int64(rapid.IntRange(3, 10).Draw(t, "maxlen"))), 0, nLevels, "len")
+		for i := 0; i < nLevels; i++ {
+			c.Levels = append(c.Levels, dm.Restr{Length: lens[i]})
+		}
+		nc := 1
+		if c.LeafList {
+			c.LeafList = false // (the harness has no leaf-lists of binaries)
+		}
+		for i := 0; i < nc; i++ {
+			c.Values = append(c.Values, base64.StdEncoding.EncodeToString(rapid.SliceOfN(rapid.Byte(), 0, 11).Draw(t, "octets")))
+		}
+		if c.Path == "setvalue" {
+			c.Path = "upsert-json"
+		}
+		return c
+	}
 	if c.Base == "string" {
 		lens, ivs := genRangeLevels(t, big.NewInt(0), big.NewInt(int64(rapid.IntRange(3, 10).Draw(t, "maxlen"))), 0, nLevels, "len")
 		for i := 0; i < nLevels; i++ {
